@@ -45,6 +45,13 @@ def main():
     if gpp:
         r = subprocess.run([gpp, "--version"], capture_output=True, text=True)
         print(r.stdout.splitlines()[0] if r.stdout else r.stderr[:100])
+    try:
+        from .strl import build
+        drv, info = build.build()
+        print("C20 driver:", drv, info)
+    except Exception as e:
+        print("C20 driver build FAILED:", str(e)[-1500:])
+        ok = False
     return 0 if ok else 1
 
 
